@@ -97,7 +97,7 @@ Inductive devent :=
 | DEv (e:event)
 | DBegin (i:nat) (t:time) (m:Z)
 | DData (i:nat) (ot:Z) (ports:list nat) (data:odata)
-| DSetData (i:nat) (j:nat) (a:attr) (v:Z).     (* simulator i, during its step, writes v to attribute a of simulator j *)
+| DSetData (i:nat) (w:nat) (j:nat) (a:attr) (v:Z).     (* entity w of simulator i, during i's step, writes v to attribute a of simulator j *)
 Inductive dres := DOk (s : state) (ds : dstate) (inp : option idata) | DErr (e : err) | DAsyncRefused (i j : nat).
 Definition dapply (st:static) (dt:dstatic) (sd : state * dstate) (e:devent) : dres :=
   let (s,ds) := sd in
@@ -117,9 +117,9 @@ Definition dapply (st:static) (dt:dstatic) (sd : state * dstate) (e:devent) : dr
       | Err er => DErr er end
   | DEv e' =>
       match apply st s e' with Ok s' => DOk s' ds None | Err er => DErr er end
-  | DSetData i j a v =>
+  | DSetData i w j a v =>
       (* MosaikRemote._assert_async_requests: i must be an async-requests successor of j *)
       if existsb (fun jd : nat*interval => Nat.eqb (fst jd) i) (succ_wait st j) then
-        let x := ds j in DOk s (dupd ds j (mkD (outputs x) (buffer x) (bcount x) (persist x) (iset a i (Some v) (setdata x)))) None
+        let x := ds j in DOk s (dupd ds j (mkD (outputs x) (buffer x) (bcount x) (persist x) (iset a (w * nsims st + i) (Some v) (setdata x)))) None
       else DAsyncRefused i j
   end.
